@@ -18,7 +18,7 @@
 (* every small list, with every subset of views registered.                *)
 (* Items are one token each; all indexes are 0-based as in the code.       *)
 (***************************************************************************)
-EXTENDS Naturals, Integers, Sequences, FiniteSets, TLC, PySeq
+EXTENDS Naturals, Integers, Sequences, FiniteSets, TLC, Json, PySeq
 
 CONSTANTS Types, ViewTypes,   \* ViewTypes: [view name -> SUBSET Types]
           InitLens, MaxLen, MaxBatch, IdxDom, StepDom, Depth,
@@ -27,8 +27,9 @@ CONSTANTS Types, ViewTypes,   \* ViewTypes: [view name -> SUBSET Types]
 VARIABLES items,    \* Seq of [id, ty]                      -- Repeated.items
           doc,      \* Seq of tokens [k, id]                -- the store, restricted to this field
           rawIdx,   \* [registered view -> Seq(Nat)]        -- _raw_indexes
-          nextId, steps, err
-vars == <<items, doc, rawIdx, nextId, steps, err>>
+          nextId, steps, err,
+          hist      \* the calls made so far with the state after each (replayed on the real wrappers; not part of the design state)
+vars == <<items, doc, rawIdx, nextId, steps, err, hist>>
 
 PH == [k |-> "ph", id |-> 0]
 SEP == [k |-> "sep", id |-> 0]
@@ -186,25 +187,47 @@ Register(v) ==
     /\ rawIdx' = [w \in DOMAIN rawIdx \cup {v} |-> IF w = v THEN Filter(items, ViewTypes[v]) ELSE rawIdx[w]]
     /\ UNCHANGED <<items, doc, nextId, steps, err>>
 
+\* one history record per call: what was called, and the item list / index tables / token kinds afterwards
+Log(op, args) ==
+    hist' = Append(hist, [op |-> op, args |-> args,
+                          items |-> [k \in 1..Len(items') |-> <<items'[k].id, items'[k].ty>>],
+                          idx |-> [v \in DOMAIN rawIdx' |-> rawIdx'[v]],
+                          reg |-> [v \in DOMAIN ViewTypes |-> v \in DOMAIN rawIdx'],
+                          doc |-> [k \in 1..Len(doc') |-> doc'[k].k]])
+
 Slices == {<<a, b, c>> : a \in IdxDom \cup {NoneV}, b \in IdxDom \cup {NoneV}, c \in StepDom}
 
 Next ==
-    \/ \E v \in DOMAIN ViewTypes : Register(v)
+    \/ \E v \in DOMAIN ViewTypes : Register(v) /\ Log("register", [v |-> v])
     \/ /\ steps < Depth
-       /\ \/ \E i \in IdxDom : \E b \in Batches(1) : Len(items) < MaxLen /\ OpInsert(i, b)
-          \/ \E k \in 0..MaxBatch : \E b \in Batches(k) : Len(items) + k <= MaxLen /\ OpExtend(b)
-          \/ \E i \in IdxDom : \E b \in Batches(1) : OpSetItem(i, b)
-          \/ \E sl \in Slices : \E k \in 0..MaxBatch : \E b \in Batches(k) : Len(items) + k <= MaxLen /\ OpSetSlice(sl, b)
-          \/ \E i \in IdxDom : OpPop(i)
-          \/ OpClear
-          \/ \E S \in SUBSET (0..Len(items) - 1) : OpDropMany(S)
+       /\ \/ \E i \in IdxDom : \E b \in Batches(1) : Len(items) < MaxLen /\ OpInsert(i, b) /\ Log("insert", [i |-> i, b |-> b])
+          \/ \E k \in 0..MaxBatch : \E b \in Batches(k) : Len(items) + k <= MaxLen /\ OpExtend(b) /\ Log("extend", [b |-> b])
+          \/ \E i \in IdxDom : \E b \in Batches(1) : OpSetItem(i, b) /\ Log("setitem", [i |-> i, b |-> b])
+          \/ \E sl \in Slices : \E k \in 0..MaxBatch : \E b \in Batches(k) :
+                Len(items) + k <= MaxLen /\ OpSetSlice(sl, b) /\ Log("setslice", [sl |-> sl, b |-> b])
+          \/ \E i \in IdxDom : OpPop(i) /\ Log("pop", [i |-> i])
+          \/ OpClear /\ Log("clear", [x |-> 0])
+          \/ \E S \in SUBSET (0..Len(items) - 1) : OpDropMany(S) /\ Log("dropmany", [s |-> S])
 
 Init == \E n \in InitLens : \E tys \in [1..n -> Types] :
            /\ items = [k \in 1..n |-> [id |-> k, ty |-> tys[k]]]
            /\ doc = Doc([k \in 1..n |-> [id |-> k, ty |-> tys[k]]])
            /\ rawIdx = <<>> /\ nextId = n + 1 /\ steps = 0 /\ err = ""
+           /\ hist = <<[op |-> "init", args |-> [x |-> 0], items |-> [k \in 1..n |-> <<k, tys[k]>>],
+                        idx |-> <<>>, reg |-> [v \in DOMAIN ViewTypes |-> FALSE],
+                        doc |-> [k \in 1..(2 * n + 1) |-> Doc([j \in 1..n |-> [id |-> j, ty |-> tys[j]]])[k].k]]>>
 
 DocOK == doc = Doc(items)
 ViewsOK == \A v \in DOMAIN rawIdx : rawIdx[v] = Filter(items, ViewTypes[v])
+\* design check: the history is not part of the state (VIEW), behaviours for the replay: Emit at the leaves
+DesignView == <<items, doc, rawIdx, nextId, steps, err>>
+\* replay runs: views register in one canonical order, and not after the last call (a table computed from scratch
+\* after the last call has no later call to be wrong about)
+RegCanon ==
+    LET regs == SelectSeq(hist, LAMBDA h : h.op = "register")
+        Rank(v) == CASE v = "va" -> 1 [] v = "vb" -> 2 [] OTHER -> 3
+    IN /\ \A i, j \in 1..Len(regs) : i < j => Rank(regs[i].args.v) < Rank(regs[j].args.v)
+       /\ ~(steps = Depth /\ Depth > 0 /\ hist[Len(hist)].op = "register")
+Emit == (steps = Depth) => PrintT(<<"TRACE", ToJson(hist)>>)
 NoDup == \A i, j \in 1..Len(items) : items[i].id = items[j].id => i = j
 =============================================================================
